@@ -145,10 +145,16 @@ fn items_for(state: usize, max: i32, thorough: bool) -> Vec<Item> {
         ("outer-len:5xff".into(), vec![0xff; 5], true),
     ];
     for (class, bytes, out_of_range) in outer {
+        // a maximum that is not positive admits no length at all
+        let out_of_range = out_of_range || max <= 0;
         if out_of_range {
             push(&class, bytes.clone(), false, true, true);
         }
         push(&format!("{class}+eof"), bytes, true, true, false);
+    }
+    if max <= 0 {
+        drop(push);
+        return v;
     }
     if state >= 8 {
         // well-formed Keep Alive frames with extreme ids (with and without one outstanding, see state 10)
@@ -343,7 +349,7 @@ fn judge(it: &Item, baseline_packets: usize, obs: &Obs) -> Vec<(String, String)>
         return v;
     }
     // (iii) memory in proportion to the configured maximum
-    let bound = 2 * it.max as usize + 64 * 1024;
+    let bound = 2 * it.max.max(0) as usize + 64 * 1024;
     if obs.max_alloc > bound {
         bad(format!("allocation:{}", it.class.trim_end_matches("+eof")), format!("state {st}: a single allocation of {} bytes was requested; max_packet_length is {}", obs.max_alloc, it.max));
     }
@@ -433,7 +439,8 @@ pub fn run(cli: Cli) -> ! {
     let mut items: Vec<Item> = vec![];
     for state in 0..N_STATES {
         let maxes: Vec<i32> = match state {
-            0 => vec![1, 64, 10_000, 2_097_151],
+            // (a maximum that is not positive - e.g. a configured value that wrapped around - admits nothing)
+            0 => vec![1, 64, 10_000, 2_097_151, 0, -1, i32::MIN],
             1..=5 => vec![64, 10_000, 2_097_151],
             _ => vec![10_000, 2_097_151],
         };
@@ -510,7 +517,7 @@ pub fn run(cli: Cli) -> ! {
     rep.set("distinct_nontrivial", json!(d));
     rep.set("states", json!(N_STATES));
     rep.set("exhaustive", json!(true));
-    rep.set("rule", json!("one hostile frame per run in each of 11 protocol states (the last: configuration phase, routing slow, the Keep Alive of the 16 s tick unanswered, hostile bytes at 17 s) x configured maximum {1,64,10000,2097151}: 10 outer length prefixes (alone, and followed by EOF), 8 inner length prefixes per length-prefixed field of every packet legal in the state, truncation of the honest frame at every byte offset + EOF, invalid UTF-8 per string, 4 out-of-range ordinals per enum, RSA ciphertext shapes, valid RSA layers around secrets of 0-100 bytes and verify tokens of 0-117 bytes, 9 well-formed Keep Alive frames with extreme ids in the configuration states, every [len][id][b] frame for id 0..0x20,0x7f and b 0..255 and 256 two-byte bodies; transport faults: the connection reset at a frame boundary and inside every legal frame of every state, and every clientbound frame of a status exchange and of a login with slow routing refused by the transport (Ok(0) or BrokenPipe, at once or after two bytes). distinct_nontrivial = distinct (state, class, result)."));
+    rep.set("rule", json!("one hostile frame per run in each of 11 protocol states (the last: configuration phase, routing slow, the Keep Alive of the 16 s tick unanswered, hostile bytes at 17 s) x configured maximum {1,64,10000,2097151; before the handshake also 0, -1, i32::MIN, which admit no length}: 10 outer length prefixes (alone, and followed by EOF), 8 inner length prefixes per length-prefixed field of every packet legal in the state, truncation of the honest frame at every byte offset + EOF, invalid UTF-8 per string, 4 out-of-range ordinals per enum, RSA ciphertext shapes, valid RSA layers around secrets of 0-100 bytes and verify tokens of 0-117 bytes, 9 well-formed Keep Alive frames with extreme ids in the configuration states, every [len][id][b] frame for id 0..0x20,0x7f and b 0..255 and 256 two-byte bodies; transport faults: the connection reset at a frame boundary and inside every legal frame of every state, and every clientbound frame of a status exchange and of a login with slow routing refused by the transport (Ok(0) or BrokenPipe, at once or after two bytes). distinct_nontrivial = distinct (state, class, result)."));
     rep.sample(json!({"item": items[0]}));
     rep.sample(json!({"item": items[items.len() / 2]}));
     rep.sample(json!({"item": items[items.len() - 1]}));
